@@ -1,0 +1,15 @@
+//go:build verif
+
+package database
+
+// VerifBM25FParams is a read-only accessor for the BM25F parameters in force (k1, per-field
+// weights and b in the order command, description, keywords, tags, and the idf floor), so that
+// a reference scorer outside the package follows re-tuning of the parameters instead of
+// flagging it. Compiled only with the verif build tag.
+func (db *Database) VerifBM25FParams() (k1 float64, w, b [4]float64, minIDF float64) {
+	p := defaultParams()
+	if db != nil && db.uIndex != nil {
+		p = db.uIndex.params
+	}
+	return p.k1, [4]float64{p.w.cmd, p.w.desc, p.w.keys, p.w.tags}, [4]float64{p.b.cmd, p.b.desc, p.b.keys, p.b.tags}, p.minIDF
+}
